@@ -105,6 +105,14 @@ func requestAlphabet() []ref.Rule {
 		dr("reject", dp("qtype", false, "a")),
 		dr("ub", dp("qtype", false, "a"), dq(false, "suffix", "b.org")),
 		dr("ua", dp("qtype", true, "aaaa"), dq(true, "keyword", "goo")),
+		// conditions whose value list is empty after expansion
+		dr("ub", dq(false, "geosite", "tiny@nomatch")),
+		dr("ub", dq(true, "geosite", "tiny@nomatch")),
+		dr("ub", dp("qtype", false, "a"), dq(false, "geosite", "tiny@nomatch")),
+		dr("ub", dq(false, "suffix", "b.org"), dq(false, "geosite", "tiny@nomatch")),
+		dr("ub", dp("qtype", false, "aaaa"), dq(true, "geosite", "tiny@nomatch")),
+		// the same value in two conditions of one rule
+		dr("ub", dq(false, "suffix", "b.org", "full", "a.com"), dq(true, "full", "a.com")),
 	}
 }
 
@@ -139,6 +147,14 @@ func responseAlphabet() []ref.Rule {
 		dr("reject", dp("upstream", false, "ua"), dp("ip", false, "8.8.8.8")),
 		dr("ua", dp("ip", false, "10.0.0.0/8"), dq(true, "suffix", "b.org")),
 		dr("accept", dp("qtype", false, "aaaa"), dq(false, "geosite", "tiny")),
+		// conditions whose value list is empty after expansion
+		dr("reject", dk("ip", false, "geoip", "empty")),
+		dr("reject", dk("ip", true, "geoip", "empty")),
+		dr("reject", dp("upstream", false, "ua"), dk("ip", false, "geoip", "empty")),
+		dr("reject", dp("ip", false, "8.8.8.8"), dk("ip", false, "geoip", "empty")),
+		dr("reject", dp("upstream", false, "ub"), dk("ip", true, "geoip", "empty")),
+		// the same value in two conditions of one rule
+		dr("reject", dp("ip", false, "10.0.0.0/8", "8.8.8.8"), dp("ip", true, "8.8.8.8")),
 	}
 }
 
@@ -233,6 +249,9 @@ type dnsSym struct {
 	text     string
 	etext    string
 	mask     *ref.RuleMask // reference truth of the (expanded) rule on every input of the pipeline's input list
+	// hasEmpty: some condition has an empty value list after expansion (the reference takes it literally: no value
+	// matches, so f() never holds and !f() always holds); unconditional: every condition is such a negation
+	hasEmpty, unconditional bool
 }
 
 func expandDNSRule(r ref.Rule) (ref.Rule, bool) {
@@ -260,6 +279,15 @@ func mkSyms(alpha []ref.Rule, inputs []ref.Input) []*dnsSym {
 		s := &dnsSym{rule: r, text: r.Text()}
 		s.exp, s.expanded = expandDNSRule(r)
 		s.etext = s.exp.Text()
+		s.unconditional = true
+		for _, c := range s.exp.Conds {
+			if len(c.Params) == 0 {
+				s.hasEmpty = true
+			}
+			if len(c.Params) != 0 || !c.Not {
+				s.unconditional = false
+			}
+		}
 		s.mask = ref.MaskRule(s.exp, inputs)
 		out = append(out, s)
 	}
@@ -269,7 +297,7 @@ func mkSyms(alpha []ref.Rule, inputs []ref.Input) []*dnsSym {
 type dnsPipe struct {
 	name                                                    string
 	lists, evals, changed, nontrivial, merged, deduped, geo *atomic.Int64
-	byRule, negMergeable                                    *atomic.Int64
+	byRule, negMergeable, emptyExp, rejected                *atomic.Int64
 	outcomes                                                hist
 }
 
@@ -278,7 +306,8 @@ func newDNSPipe(r *vlib.Run, name string) *dnsPipe {
 	return &dnsPipe{name: name, lists: r.Counter(p + "lists"), evals: r.Counter(p + "decisions"), changed: r.Counter(p + "lists_changed_by_optimizers"),
 		nontrivial: r.Counter(p + "decisions_on_changed_lists"), merged: r.Counter(p + "lists_with_merged_rules"), deduped: r.Counter(p + "lists_with_removed_values"),
 		geo: r.Counter(p + "lists_with_geodata"), byRule: r.Counter(p + "decisions_by_a_rule"),
-		negMergeable: r.Counter(p + "lists_with_adjacent_negated_same_function_same_outbound")}
+		negMergeable: r.Counter(p + "lists_with_adjacent_negated_same_function_same_outbound"),
+		emptyExp:     r.Counter(p + "lists_with_empty_expansion"), rejected: r.Counter(p + "lists_rejected_unconditional_after_expansion")}
 }
 
 type dnsLeg struct {
@@ -438,13 +467,14 @@ type dnsDetail struct {
 }
 
 type dnsList struct {
-	syms     []*dnsSym
-	masks    []*ref.RuleMask
-	prog     *ref.Program // as written
-	exp      *ref.Program // expanded
-	expanded bool
-	texts    []string
-	etexts   []string
+	syms                    []*dnsSym
+	masks                   []*ref.RuleMask
+	prog                    *ref.Program // as written
+	exp                     *ref.Program // expanded
+	expanded                bool
+	texts                   []string
+	etexts                  []string
+	hasEmpty, unconditional bool
 }
 
 func mkList(syms []*dnsSym, idx []int, fallback string) *dnsList {
@@ -458,6 +488,8 @@ func mkList(syms []*dnsSym, idx []int, fallback string) *dnsList {
 		l.texts = append(l.texts, s.text)
 		l.etexts = append(l.etexts, s.etext)
 		l.expanded = l.expanded || s.expanded
+		l.hasEmpty = l.hasEmpty || s.hasEmpty
+		l.unconditional = l.unconditional || s.unconditional
 	}
 	return l
 }
@@ -497,7 +529,7 @@ type listMism struct {
 
 func (m *listMism) note(pipeline, leg string, l *dnsList, ord, idx int, config, lowered string, in *ref.Input, want string, by int, got string, routerGot bool) {
 	diag := "other"
-	if leg == "optimised" {
+	if leg == "optimised" && strings.Count(lowered, " ; ") < len(l.prog.Rules)-1 { // only when rules really were fused
 		if mp, ch := ref.MergedNegated(l.exp); ch {
 			o, _ := ref.Decide(mp, in)
 			if o == got || (routerGot && (o == "asis" || o == "reject") && got == "passthrough") {
@@ -556,6 +588,9 @@ func (d *dnsLeg) classify(p *dnsPipe, l *dnsList, written []*config_parser.Routi
 	if l.expanded {
 		p.geo.Add(1)
 	}
+	if l.hasEmpty {
+		p.emptyExp.Add(1)
+	}
 	if len(lowered) < len(written) {
 		p.merged.Add(1)
 	}
@@ -591,29 +626,50 @@ func (d *dnsLeg) one(ord, i int, reqIdx, respIdx []int, viaText bool, withRouter
 		b.WriteString("      fallback: " + fb + "\n")
 		return b.String()
 	}
-	text := dnsConfText(block(rTexts, reqFallback), block(pTexts, respFallback))
+	var text string
 	var conf *config.Config
 	var dd *dns.Dns
 	var err error
-	if pk, msg := vlib.Try(func() {
-		var secs []*config_parser.Section
-		if viaText {
-			if secs, err = config_parser.Parse(text); err != nil {
+	for {
+		text = dnsConfText(block(rTexts, reqFallback), block(pTexts, respFallback))
+		conf, dd, err = nil, nil, nil
+		pk, msg := vlib.Try(func() {
+			var secs []*config_parser.Section
+			if viaText {
+				if secs, err = config_parser.Parse(text); err != nil {
+					return
+				}
+			} else {
+				secs = dnsSections(rTexts, reqFallback, pTexts, respFallback)
+			}
+			if conf, err = config.New(secs); err != nil {
 				return
 			}
-		} else {
-			secs = dnsSections(rTexts, reqFallback, pTexts, respFallback)
-		}
-		if conf, err = config.New(secs); err != nil {
+			dd, err = dns.New(&conf.Dns, &dns.NewOption{Logger: log, LocationFinder: d.finder,
+				UpstreamReadyCallback: func(*dns.Upstream) error { return nil }, UpstreamResolverNetwork: "udp"})
+		})
+		if pk {
+			d.buildErr("dns", ord, i, firstList(rl, pl), text, "leg=optimised build panic at "+vlib.PanicSite(msg)+" response=["+strings.Join(pTexts, " ; ")+"]")
 			return
 		}
-		dd, err = dns.New(&conf.Dns, &dns.NewOption{Logger: log, LocationFinder: d.finder,
-			UpstreamReadyCallback: func(*dns.Upstream) error { return nil }, UpstreamResolverNetwork: "udp"})
-	}); pk {
-		d.buildErr("dns", ord, i, firstList(rl, pl), text, "leg=optimised build panic at "+vlib.PanicSite(msg)+" response=["+strings.Join(pTexts, " ; ")+"]")
-		return
-	}
-	if err != nil {
+		if err == nil {
+			break
+		}
+		// a rule that holds for every input after expansion (all its conditions are negations of empty lists) may
+		// be refused with an explicit configuration error: then no program is compiled for that list; the
+		// partner list of the document is still evaluated
+		if rl != nil && rl.unconditional {
+			d.pReq.rejected.Add(1)
+			d.pReq.lists.Add(1)
+			rl, rTexts = nil, nil
+			continue
+		}
+		if pl != nil && pl.unconditional {
+			d.pResp.rejected.Add(1)
+			d.pResp.lists.Add(1)
+			pl, pTexts = nil, nil
+			continue
+		}
 		d.buildErr("dns", ord, i, firstList(rl, pl), text, "leg=optimised build error: "+err.Error()+" response=["+strings.Join(pTexts, " ; ")+"]")
 		return
 	}
@@ -626,7 +682,7 @@ func (d *dnsLeg) one(ord, i int, reqIdx, respIdx []int, viaText bool, withRouter
 			lowered = prog.Rules
 		}
 		loweredText := renderRules(lowered)
-		needBase := viaText || rl.expanded || loweredText != renderRules(written)
+		needBase := !rl.hasEmpty && (viaText || rl.expanded || loweredText != renderRules(written)) // an empty value list cannot be written as text
 		var base *dns.RequestMatcher
 		if needBase {
 			if pk, msg := vlib.Try(func() {
@@ -714,7 +770,7 @@ func (d *dnsLeg) one(ord, i int, reqIdx, respIdx []int, viaText bool, withRouter
 			lowered = prog.Rules
 		}
 		loweredText := renderRules(lowered)
-		needBase := viaText || pl.expanded || loweredText != renderRules(written)
+		needBase := !pl.hasEmpty && (viaText || pl.expanded || loweredText != renderRules(written))
 		var base *dns.ResponseMatcher
 		if needBase {
 			if pk, msg := vlib.Try(func() {
